@@ -50,3 +50,149 @@ Definition quote_string (s : bytes) : res bytes :=
   | Err => Err
   | OutOfFuel => OutOfFuel
   end.
+
+(* ------------------------------------------------------------------------
+   Layout model of printer.go for executable documents.
+
+   The printer builds strings with join / wrap / block / indent.  The model
+   builds the same strings as lists of pieces -- a token (kind, value) or a
+   separator (bytes between tokens) -- with the same four combinators, and
+   print_doc flattens the pieces.  A piece list is empty exactly when the Go
+   string is empty (join drops empty strings, wrap tests for them). *)
+From Coq Require Import String.
+From GQL Require Import Syntax.Ast Syntax.Parser.
+
+Inductive piece := PTok (k : tkind) (v : bytes) | PSep (s : bytes).
+Definition layout := list piece.
+
+Definition quote_str (s : bytes) : bytes :=
+  match quote_string s with Ok q => q | _ => [34; 34] end.
+
+Definition punct_bytes (k : tkind) : bytes :=
+  match k with
+  | BANG => [33] | DOLLAR => [36] | AMP => [38] | PAREN_L => [40] | PAREN_R => [41]
+  | SPREAD => [46; 46; 46] | COLON => [58] | EQUALS => [61] | AT => [64]
+  | BRACKET_L => [91] | BRACKET_R => [93] | BRACE_L => [123] | PIPE => [124] | BRACE_R => [125]
+  | _ => []
+  end.
+
+Definition render_piece (p : piece) : bytes :=
+  match p with
+  | PSep s => s
+  | PTok k v =>
+    match k with
+    | NAME | INT | FLOAT => v
+    | STRING | BLOCK_STRING => quote_str v
+    | _ => punct_bytes k
+    end
+  end.
+
+Definition flat (l : layout) : bytes := flat_map render_piece l.
+
+Definition T (k : tkind) : layout := [PTok k []].
+Definition Nm (n : name) : layout := [PTok NAME (nval n)].
+Definition Kw (s : string) : layout := [PTok NAME (kw s)].
+Definition sp : layout := [PSep [32]].
+Definition comma_sp : bytes := [44; 32].
+
+(* join: empty strings are dropped, the rest separated by sep *)
+Fixpoint ljoin_ne (l : list layout) (sep : bytes) : layout :=
+  match l with
+  | [] => []
+  | [a] => a
+  | a :: r => a ++ PSep sep :: ljoin_ne r sep
+  end.
+Definition ljoin (l : list layout) (sep : bytes) : layout :=
+  ljoin_ne (filter (fun x => negb (is_nil x)) l) sep.
+(* wrap(start, maybeString, end) *)
+Definition lwrap (a m b : layout) : layout := if is_nil m then [] else a ++ m ++ b.
+(* indent: every newline gets two spaces after it *)
+Fixpoint indent_bytes (s : bytes) : bytes :=
+  match s with
+  | [] => []
+  | c :: r => if c =? 10 then 10 :: 32 :: 32 :: indent_bytes r else c :: indent_bytes r
+  end.
+Definition lindent (l : layout) : layout :=
+  map (fun p => match p with PSep s => PSep (indent_bytes s) | t => t end) l.
+(* block(items) *)
+Definition lblock (items : list layout) : layout :=
+  if is_nil items then [PTok BRACE_L []; PTok BRACE_R []]
+  else lindent (PTok BRACE_L [] :: PSep [10] :: ljoin items [10]) ++ [PSep [10]; PTok BRACE_R []].
+
+Fixpoint lay_value (v : value) : layout :=
+  match v with
+  | VVar n _ => PTok DOLLAR [] :: Nm n
+  | VInt s _ => [PTok INT s]
+  | VFloat s _ => [PTok FLOAT s]
+  | VStr s _ => [PTok STRING s]
+  | VBool b _ => if b then Kw "true" else Kw "false"
+  | VEnum s _ => [PTok NAME s]
+  | VList vs _ => T BRACKET_L ++ ljoin (map lay_value vs) comma_sp ++ T BRACKET_R
+  | VObj fs _ =>
+    T BRACE_L ++
+    ljoin (map (fun f => match f with OField n v _ => Nm n ++ PTok COLON [] :: PSep [32] :: lay_value v end) fs) comma_sp ++
+    T BRACE_R
+  end.
+
+Fixpoint lay_type (t : ty) : layout :=
+  match t with
+  | TNamed n => Nm (nd_name n)
+  | TList t _ => T BRACKET_L ++ lay_type t ++ T BRACKET_R
+  | TNonNull t _ => lay_type t ++ T BANG
+  end.
+
+Definition lay_arg (a : argument) : layout := Nm (a_name a) ++ PTok COLON [] :: PSep [32] :: lay_value (a_value a).
+Definition lay_args (l : list argument) : layout := lwrap (T PAREN_L) (ljoin (map lay_arg l) comma_sp) (T PAREN_R).
+Definition lay_dir (d : directive) : layout := PTok AT [] :: Nm (d_name d) ++ lay_args (d_args d).
+Definition lay_dirs (l : list directive) : layout := ljoin (map lay_dir l) [32].
+
+Fixpoint lay_sel (s : selection) : layout :=
+  match s with
+  | SField al nm args dirs sub _ =>
+    ljoin [ lwrap [] (match al with Some a => Nm a | None => [] end) [PTok COLON []; PSep [32]] ++ Nm nm ++ lay_args args;
+            lay_dirs dirs;
+            match sub with Some ss => lay_selset ss | None => [] end ] [32]
+  | SSpread n dirs _ => T SPREAD ++ Nm n ++ lwrap sp (lay_dirs dirs) []
+  | SInline tc dirs ss _ =>
+    ljoin [ T SPREAD;
+            lwrap (Kw "on" ++ sp) (match tc with Some t => Nm (nd_name t) | None => [] end) [];
+            lay_dirs dirs;
+            lay_selset ss ] [32]
+  end
+with lay_selset (ss : selset) : layout :=
+  match ss with
+  | SelSet sels _ => lblock (map lay_sel sels)
+  end.
+
+Definition lay_vardef (v : vardef) : layout :=
+  PTok DOLLAR [] :: Nm (vd_var v) ++ PTok COLON [] :: PSep [32] :: lay_type (vd_type v) ++
+  lwrap (sp ++ T EQUALS ++ sp) (match vd_default v with Some d => lay_value d | None => [] end) [].
+
+Definition is_query (o : optype) : bool := match o with Query => true | _ => false end.
+
+Definition lay_op (o : opdef) : layout :=
+  let name := match op_name o with Some n => Nm n | None => [] end in
+  let vardefs := lwrap (T PAREN_L) (ljoin (map lay_vardef (op_vars o)) comma_sp) (T PAREN_R) in
+  let dirs := lay_dirs (op_dirs o) in
+  let sel := lay_selset (op_sel o) in
+  if is_nil name && is_nil dirs && is_nil vardefs && is_query (op_type o) then sel
+  else ljoin [ [PTok NAME (optype_name (op_type o))]; name ++ vardefs; dirs; sel ] [32].
+
+Definition lay_frag (f : fragdef) : layout :=
+  Kw "fragment" ++ sp ++ Nm (fr_name f) ++ sp ++ Kw "on" ++ sp ++ Nm (nd_name (fr_cond f)) ++ sp ++
+  lwrap [] (lay_dirs (fr_dirs f)) sp ++ lay_selset (fr_sel f).
+
+(* type-system definitions are not modelled: they print as nothing here and
+   [print_doc] is only compared on executable documents *)
+Definition lay_def (d : definition) : layout :=
+  match d with
+  | DOp o => lay_op o
+  | DFrag f => lay_frag f
+  | _ => []
+  end.
+
+Definition lay_doc (d : document) : layout := ljoin (map lay_def (doc_defs d)) [10; 10] ++ [PSep [10]].
+
+Definition print_value (v : value) : bytes := flat (lay_value v).
+Definition print_type (t : ty) : bytes := flat (lay_type t).
+Definition print_doc (d : document) : bytes := flat (lay_doc d).
